@@ -992,6 +992,13 @@ class World:
         out.w('\n' + head + '\n')
         for ty in it.get('types', []):
             out.w('    ' + ty['text'] + '\n')
+        for cst in it.get('consts', []):
+            # R5 for an associated const a verified function reads: `exec const` with the contract file's `ensures`
+            ck = (modpath, f'{self_ty}::{cst["name"]}')
+            if ck in self.vc.types and it['trait'] is None:
+                self.used_types.add(ck)
+                self.counters['R5'] += 1
+                out.w(f'    pub exec const {cst["name"]}: {cst["ty"]}\n        {self.vc.types[ck].extra.strip()}\n    {{ {cst["expr"]} }}\n')
         for mm in it['methods']:
             self._emit_fn(out, src, m, modpath, mm, f'{self_ty}::{mm["name"]}', reach, indent='    ')
         out.w('}\n')
